@@ -110,7 +110,9 @@ def floors(tier):
             "classes": {"float:-0.0": 1, "float:nan": 1, "float:inf": 2, "float:subnormal": 1, "complex": 3, "enum:top": 2,
                         "enum:nested": 1, "enum:flag-combo": 1, "int:huge": 1, "nested-depth>=4": 5, "object-fields": 5,
                         "str:odd": 5, "bytes": 3, "subclass-of-builtin-with-custom-repr": 20, "assert:FloatAssertion": 20, "assert:ObjectAssertion": 500,
-                        "assert:IsInstanceAssertion": 5, "assert:TypeNameAssertion": 3, "assert:CollectionLengthAssertion": 5}}
+                        "assert:IsInstanceAssertion": 5, "assert:TypeNameAssertion": 3, "assert:CollectionLengthAssertion": 5,
+                        "later-mutation": 300, "later-mutation:tuple": 20, "later-mutation:attr": 20, "later-mutation:list": 20,
+                        "later-mutation:dict": 10, "later-mutation:set": 5}}
 
 
 def plan(tier, seed):
@@ -255,6 +257,74 @@ def _srepr(v):
         return f"<{type(v).__name__} whose repr exceeds the int->str digit limit>"
 
 
+def _mutate_in_place(v, seen=None, depth=0):
+    """Change every mutable builtin container reachable from v (through containers and public attributes) in place, the way a
+    later statement of the test could; returns the kinds of container changed."""
+    seen = set() if seen is None else seen
+    if id(v) in seen or depth > 6:
+        return []
+    seen.add(id(v))
+    kinds = []
+    if type(v) is list:
+        for x in list(v):
+            kinds += _mutate_in_place(x, seen, depth + 1)
+        v.append(424242)
+        kinds.append("list")
+    elif type(v) is dict:
+        for x in list(v.values()):
+            kinds += _mutate_in_place(x, seen, depth + 1)
+        v["__later__"] = 424242
+        kinds.append("dict")
+    elif type(v) is set:
+        v.add(424242)
+        kinds.append("set")
+    elif type(v) is bytearray:
+        v.append(7)
+        kinds.append("bytearray")
+    elif type(v) is tuple:
+        for x in v:
+            kinds += [f"tuple>{k}" for k in _mutate_in_place(x, seen, depth + 1)]
+    elif type(v).__module__ == "c20_sut" and hasattr(v, "__dict__") and not isinstance(v, type):
+        for name, x in list(vars(v).items()):
+            if not name.startswith("_"):
+                kinds += [f"attr>{k}" for k in _mutate_in_place(x, seen, depth + 1)]
+    return kinds
+
+
+def _render_all(assertions):
+    import libcst as cst
+
+    from pynguin.assertion.assertion_to_ast import assertion_to_cst
+
+    out = []
+    for a in assertions:
+        try:
+            out.append(cst.Module(body=[assertion_to_cst(a)]).code)
+        except Exception as e:  # noqa: BLE001
+            out.append(f"<{type(e).__name__}>")
+    return out
+
+
+def _later_mutation(ctx, v, assertions, case):
+    """An assertion is a snapshot of what was observed at its position: changing the observed object afterwards (what later
+    statements of the same test do) must not change the recorded assertion."""
+    before = _render_all(assertions)
+    try:
+        kinds = _mutate_in_place(v)
+    except Exception:  # noqa: BLE001
+        return
+    if not kinds:
+        return
+    after = _render_all(assertions)
+    shape = sorted(set(kinds), key=len)[-1]
+    ctx.ok(cls=["later-mutation", f"later-mutation:{shape.split('>')[0]}"])
+    for a, b, c in zip(assertions, before, after):
+        if b != c:
+            ctx.witness(f"aliased:assertion-follows-later-mutation:{type(a).__name__}:{shape}",
+                        f"after the observed object was changed in place the recorded assertion renders `{c.strip()[:160]}` instead of `{b.strip()[:160]}`",
+                        {**case, "before": b, "after": c, "containers_changed": sorted(set(kinds))})
+
+
 def _one(ctx, obs, ns_base, v, label, sut):
     import libcst as cst
 
@@ -300,6 +370,7 @@ def _one(ctx, obs, ns_base, v, label, sut):
             ctx.witness(f"fails:{_mech(v, a, cl)}", f"rendered assertion is false for the observed value: {code.strip()[:200]}", {**case, "code": code})
         except Exception as e:  # noqa: BLE001
             ctx.witness(f"exec:{type(e).__name__}:{_mech(v, a, cl)}", f"{code.strip()[:200]!r} raised {e!r}", {**case, "code": code})
+    _later_mutation(ctx, v, assertions, case)
 
 
 def run_chunk(spec, ctx):
@@ -329,6 +400,9 @@ def run_chunk(spec, ctx):
         sut.Outer(), sut.Bag(1, 2, 3), sut.Bag(), int, sut.Point, len, (i for i in range(2)), range(3), bytearray(b"ab"), memoryview(b"ab"),
         random.Random(1), math, object(), NotImplemented, ..., 1e-5, 123456789.123456789, 1e100, -1e-100, float("1e23"), 0.1 + 0.2,
         [sut.Perm.R | sut.Perm.X], (1j,), {"z": 1 - 1j}, [10**5000],
+        # containers that a later statement can change in place, directly and inside immutable wrappers / attributes
+        [1, 2], {"k": [1]}, {1, 2}, ("ledger", []), (1, {"a": [1]}), ([1, 2], {3}), (((["x"],),),), sut.Point(("t", [1]), [2]), sut.Bag(1, 2),
+        sut.Point((1, (2, {"d": 0})), None), ({}, set()),
     ]
     for i, v in enumerate(directed):
         _one(ctx, obs, ns_base, v, f"directed-{i}", sut)
